@@ -393,6 +393,11 @@ class BufferedFile(ClosingContextManager):
             raise IOError("File is closed")
         if not (self._flags & self.FLAG_WRITE):
             raise IOError("File not open for writing")
+        if self._rbuffer and self.seekable():
+            # the write belongs at the caller's position, not after whatever
+            # has been read ahead.
+            self._rbuffer = bytes()
+            self._realpos = self._pos
         if not (self._flags & self.FLAG_BUFFERED):
             self._write_all(data)
             return
